@@ -86,6 +86,16 @@ def run(ctx):
         valid.append(open(p).read())
         if ctx.tier == "quick" and len(valid) >= 7:
             break
+    # a load line written twice is two loads (a repeated line is input too, not noise)
+    for t in list(valid[:3]):
+        ls = t.split("\n")
+        ks = [k for k, l in enumerate(ls) if re.match(r"\s*(fx|fy|mz)\s+[lg]d\s", l)]
+        if ks:
+            ls.insert(ks[0] + 1, ls[ks[0]])
+            valid.append("\n".join(ls))
+            break
+    else:
+        valid.append(valid[0].replace("|loads|", "|loads|\nfy ld %s 0 -50 1 -50\nfy ld %s 0 -50 1 -50" % ((re.search(r"^\s*(\S+)\s*->\s*\S+\s*\{[^}]*\}\s*\S+\s*\{", valid[0].split("|bars|")[1], re.M).group(1),) * 2), 1))
     faults = []
     if ctx.tier == "quick":
         for t in valid:
